@@ -304,6 +304,12 @@ def run_xy(case):
             "stride=None" if case["stride"] is None else "stride=1" if case["stride"] == 1 else "stride>=2",
             "spread=%g" % case["spread"], "rate=%s" % ("none" if case["rate_days"] is None else "given"))
     res.tag(*closure_tags(case))
+    if case.get("y_flat"):
+        res.tag("flat-price-run")
+    if case.get("rate_step") and case.get("rate_days") is not None:
+        res.tag("piecewise-constant-rate")
+    if case.get("y_dtype"):
+        res.tag("prices=" + case["y_dtype"])
     if case["folds"] is not None:
         res.tag("fold=" + case["fold"])
     if case["episode_length"] is not None:
